@@ -96,4 +96,22 @@ theorem C17_mirror (t : TreeInfo) (mv : Option Str) (d : Ini) (h : serialize t m
     simp (decide := true) [hg, hb, releaseOpts, treeOptsFull, treeOpts, lookup_setsKV, lookup_setKV, lookup_cons_eq, hl] <;>
     (generalize generalPath _ _ _ _ = x; cases x <;> rfl)
 
+/-! ### non-vacuity: a `src` tree with a nested addon, only source paths, media -/
+def C17_exTree : TreeInfo :=
+  { headerVersion := "0.0".toList, release := ⟨"Fedora".toList, "F".toList, "21".toList⟩, isLayered := false, baseProduct := none,
+    tree := ⟨"src".toList, .float "1417653911.75".toList (.ok 1417653911), ["xen".toList]⟩,
+    variants := [.mk "Server".toList "Server".toList "Server".toList "Server".toList "variant".toList
+                    [("source_packages".toList, "Packages".toList)]
+                    [.mk "HA".toList "HA".toList "Server-HA".toList "HA".toList "addon".toList [] []],
+                 .mk "Client".toList "Client".toList "Client".toList "Client".toList "variant".toList [] []],
+    checksums := [], images := [], mainimage := none, instimage := none, discnum := some 1, totaldiscs := some 2 }
+
+/-- the hypothesis of `C17_mirror` is satisfiable, and the mirror is what the property says: first key `Client`,
+timestamp truncated, `src` fallback for the requested main variant -/
+example : (serialize C17_exTree none).toBool = true := by decide +kernel
+example : (serialize C17_exTree none).toOption.map (fun d => (opt d sGeneral tVariant, opt d sGeneral kTimestamp))
+    = some (some "Client".toList, some "1417653911".toList) := by decide +kernel
+example : (serialize C17_exTree (some "Server".toList)).toOption.map (fun d => opt d sGeneral kPackagedir)
+    = some (some "Packages".toList) := by decide +kernel
+
 end PM
